@@ -2,6 +2,7 @@ package main
 
 import (
 	"flag"
+	"regexp"
 	"fmt"
 	"os"
 	"sort"
@@ -64,7 +65,7 @@ func main() {
 		m.Safety = *mode == "safety"
 		var vcs []*VC
 		for _, fc := range eng.db.order {
-			if fc.Kind != "func" || fc.Trusted || !strings.Contains(fc.Key, os.Args[2]) {
+			if ok, _ := regexp.MatchString(os.Args[2], fc.Key); fc.Kind != "func" || fc.Trusted || !(ok || strings.Contains(fc.Key, os.Args[2])) {
 				continue
 			}
 			vc := eng.verifyFunction(fc, m)
